@@ -89,8 +89,8 @@ private theorem writeH_oam_ppu (h : H) (m : Machine) (a v : Nat) (hr : inRange f
        rw [e1, e2]
        simp only [writeH]
        first
-         | exact ⟨rfl, rfl⟩
-         | exact getD_map _ _ m (fun x => x.oam = m.oam ∧ x.ppu = m.ppu) ⟨rfl, rfl⟩ (fun _ => ⟨rfl, rfl⟩))
+         | exact getD_map _ _ m (fun x => x.oam = m.oam ∧ x.ppu = m.ppu) ⟨rfl, rfl⟩ (fun _ => ⟨rfl, rfl⟩)
+         | exact ⟨rfl, rfl⟩)
 
 /-- **which bus writes reach the OAM unit**, for every board state, address and value -/
 theorem board_write_oam (b : Board) (a v : Nat) (ha : a < 65536) : (b.write a v).m.oam = oamAfterWrite b.m a v := by
@@ -114,21 +114,65 @@ theorem board_write_ppu (b : Board) (a v : Nat) (ha : a < 65536) : (b.write a v)
     unfold ppuAfterWrite
     rw [if_neg (by omega), if_neg (by omega), if_neg (by omega), if_neg (by omega)]
 
-/-- `oam.Write` never panics at an address the decoder sends to it -/
-theorem cpuWrite_some (s : Oam) (a v : Nat) (h : 0xFE00 ≤ a ∧ a < 0xFF00) :
+/-- `oam.Write` never panics at an address the decoder sends to it: FE00–FE9F stores the byte … -/
+theorem cpuWrite_low (s : Oam) (a v : Nat) (h : 0xFE00 ≤ a ∧ a < 0xFEA0) :
     cpuWrite s (BitVec.ofNat 16 a) (BitVec.ofNat 8 v) =
-      some (if h2 : a < 0xFEA0 then
-              { writeFlags s with oam := s.oam.set (a - 0xFE00) (BitVec.ofNat 8 v) (by omega) }
-            else writeFlags s) := by
+      some { writeFlags s with oam := s.oam.set (a - 0xFE00) (BitVec.ofNat 8 v) (by omega) } := by
   have ht : (BitVec.ofNat 16 a).toNat = a := by rw [BitVec.toNat_ofNat]; omega
   unfold cpuWrite
   simp only [ht]
+  rw [if_pos h.2]
+  have hidx : sub16 a 0xfe00 = a - 0xFE00 := by simp only [sub16]; omega
+  simp only [hidx]
+  rw [st_eq (by omega), writeFlags_oam]
+  rfl
+
+/-- … FEA0–FEFF only updates the trigger flags -/
+theorem cpuWrite_high (s : Oam) (a v : Nat) (h : 0xFEA0 ≤ a ∧ a < 0xFF00) :
+    cpuWrite s (BitVec.ofNat 16 a) (BitVec.ofNat 8 v) = some (writeFlags s) := by
+  have ht : (BitVec.ofNat 16 a).toNat = a := by rw [BitVec.toNat_ofNat]; omega
+  unfold cpuWrite
+  simp only [ht]
+  rw [if_neg (by omega)]
+
+/-- the OAM unit after `oam.Write` at an address the decoder sends to it, field by field -/
+theorem cpuWrite_fields (s : Oam) (a v : Nat) (h : 0xFE00 ≤ a ∧ a < 0xFF00) :
+    ∃ o, cpuWrite s (BitVec.ofNat 16 a) (BitVec.ofNat 8 v) = some o ∧
+      o.corrupt = (writeFlags s).corrupt ∧ o.read = (writeFlags s).read ∧ o.write = (writeFlags s).write ∧
+      o.doubleWrite = (writeFlags s).doubleWrite ∧ o.dmaRunning = (writeFlags s).dmaRunning ∧
+      (∀ k (hk : k < 160), o.oam[k] =
+        if a < 0xFEA0 ∧ k = a - 0xFE00 then BitVec.ofNat 8 v else s.oam[k]) := by
   by_cases h2 : a < 0xFEA0
-  · rw [if_pos h2, dif_pos h2]
-    have hidx : sub16 a 0xfe00 = a - 0xFE00 := by simp only [sub16]; omega
-    rw [hidx, st_eq (by omega), writeFlags_oam]
-    rfl
-  · rw [if_neg h2, dif_neg h2]
+  · refine ⟨_, cpuWrite_low s a v ⟨h.1, h2⟩, rfl, rfl, rfl, rfl, rfl, fun k hk => ?_⟩
+    show (s.oam.set (a - 0xFE00) (BitVec.ofNat 8 v) (by omega))[k] = _
+    rw [Vector.getElem_set]
+    by_cases h3 : k = a - 0xFE00
+    · rw [if_pos h3.symm, if_pos ⟨h2, h3⟩]
+    · rw [if_neg (fun e => h3 e.symm), if_neg (fun e => h3 e.2)]
+  · refine ⟨_, cpuWrite_high s a v ⟨by omega, h.2⟩, rfl, rfl, rfl, rfl, rfl, fun k hk => ?_⟩
+    rw [if_neg (fun e => h2 e.1)]
+    congr 1
+    exact writeFlags_oam s
+
+/-- the flag update at the top of `oam.Write`, field by field -/
+theorem writeFlags_fields (s : Oam) :
+    (writeFlags s).corrupt = s.corrupt ∧ (writeFlags s).read = s.read ∧ (writeFlags s).dmaRunning = s.dmaRunning ∧
+    (s.corrupt = false → writeFlags s = s) ∧
+    ((writeFlags s).doubleWrite = true → (writeFlags s).write = true ∨ s.doubleWrite = true ∧ (writeFlags s).write = s.write) := by
+  unfold writeFlags
+  split
+  · rename_i hc
+    split
+    · rename_i hw
+      refine ⟨rfl, rfl, rfl, ?_, ?_⟩
+      · intro e; rw [hc] at e; cases e
+      · intro _; exact Or.inl hw
+    · refine ⟨rfl, rfl, rfl, ?_, ?_⟩
+      · intro e; rw [hc] at e; cases e
+      · intro _; exact Or.inl rfl
+  · exact ⟨rfl, rfl, rfl, fun _ => rfl, fun e => Or.inr ⟨e, rfl⟩⟩
+
+theorem apuStep_m (b : Board) : b.apuStep.m = b.m := by rw [whole_step_apu]
 
 /-! ### reads -/
 
